@@ -338,7 +338,12 @@ def create_continuous_elements_index(net, start=0, add_df_to_reindex=None, store
 
     # run reindex_elements() for all elements
     lookups = dict()
-    for elm in list(elements):
+    for elm in sorted(elements):
+        if elm.startswith("res_") and elm[4:] in elements:
+            # result tables are reindexed together with their element table; doing it again (or
+            # before the element table, depending on the iteration order of the set) breaks the
+            # relation between the two tables
+            continue
         if elm in ["junction_geodata", "pipe_geodata"]:
             logger.info(f"The table {elm} doesn't need to be included to 'add_df_to_reindex'. It is "
                         f"already included by element==\'{elm.split('_')[0]}\'.")
